@@ -25,6 +25,7 @@ type Engine struct {
 	MaxPaths   int
 	Trusted    map[string]bool // names of trusted contracts/intrinsics actually used
 	Notes      map[string]bool // modelling notes (inline, unsupported) actually hit
+	AtCallHit  map[string]bool // fn#clause-index of at_call clauses that matched a call site
 	LockHook   lockHook
 	GhostFns   map[string]*GhostFn
 	Ld         *Loaded // the module being verified (syntax for replay extraction)
@@ -1961,6 +1962,12 @@ func (r *FnRun) finish() {
 	}
 	if nret == 0 && len(c.ByKind("ensures")) > 0 && len(r.Unsupp) == 0 {
 		r.Unsupp = append(r.Unsupp, "no returning path reached")
+	}
+	// an at_call clause that matched no call site decides nothing: say so
+	for i, ac := range c.AtCall {
+		if !r.E.AtCallHit[r.FnName+"#"+fmt.Sprint(i)] {
+			r.E.Notes[fmt.Sprintf("at_call clause %d of %s names %s, which is not called on any explored path (the clause generated no obligation)", i+1, r.FnName, ac.Callee)] = true
+		}
 	}
 	// canary: `ensures false` on a returning path must fail (some return is reachable)
 	n := 0
